@@ -106,6 +106,7 @@ def arith(D=None, n=None, w=None, W=None):
     w = z3.Real("aw") if w is None else w
     W = z3.Real("aW") if W is None else W
     return {
+        "paced": ("I>0, rate>0, 0<=k<=s/I+1 => k*rate*I <= rate*(s+I)   [n=I, D=rate, w=k, W=s]", [n > 0, D > 0, w >= 0, w <= W / n + 1], w * D * n <= D * (W + n)),
         "unshare": ("n>=1 => n*(D/n) = D", [n >= 1], n * (D / n) == D),
         "pmono": ("D<=n, w>=0 => D*w <= n*w", [D <= n, w >= 0], D * w <= n * w),
         "kshare": ("D>=0, 0<=w<=W, W>0 => 0 <= (D/W)*w <= D", [D >= 0, w >= 0, W > 0, w <= W], z3.And((D / W) * w >= 0, (D / W) * w <= D)),
